@@ -1,20 +1,24 @@
 (** C01 - Round trip: Unmarshal(Marshal(v)) recovers v.
-    PARTIAL: proved for the fragment [rt_ok] of codec trees - every scalar
-    codec, strings, byte slices, times in both forms, null types, pointers,
-    structs nested to any depth, packed slices of scalars and counted slices of
+    Proved for the fragment [rt_ok] of codec trees - every scalar codec,
+    strings, byte slices, times in both forms, null types, pointers, structs
+    nested to any depth, packed slices of scalars, counted slices of
     length-delimited elements (incl. slices of structs, of strings, of packed
-    slices).  Maps, the protobuf repeated-field forms, nil entries of pointer
-    slices and the BigQuery/JSON codecs are decided by the correspondence
-    (model = implementation on generated cases) and by the model's own
-    evaluation; the documented normalisations show up as the [canon]
-    hypothesis (an omitted plain field must hold exactly zero, unencoded fields
-    read back zero).  Known findings: D12, D24, D27. *)
+    slices), maps (entries merged by key, in wire order), and - as struct
+    fields - the protobuf repeated-field form of slices and maps.  PARTIAL:
+    outside the fragment are nil / null.* / BQ elements of scalar slices
+    (findings D24), the BigQuery / JSON codecs (JSON: C16's theorems) and the
+    repeated forms anywhere but directly in a struct field ([top_ok]: finding
+    D12); those are decided by the correspondence.  The documented
+    normalisations show up as the [canon] hypothesis (an omitted plain field
+    holds exactly zero, unencoded fields read back zero, map keys are distinct,
+    an empty map in the repeated form reads back nil).  Known findings: D12,
+    D24, D27. *)
 From Plenc Require Import Base Varint Wire JsonAny Codec SizeProofs Registry CorrCore RoundTripBase RoundTrip RoundTripZero.
 Open Scope N_scope.
 
 (** decoding the encoding of [v] into a fresh target yields [v] and consumes
     exactly the encoding *)
-Theorem C01_roundtrip_partial : forall c v, rt_ok c -> wfv c v -> fits c v -> canon c v -> omit c v = false ->
+Theorem C01_roundtrip_partial : forall c v, rt_ok c -> top_ok c -> wfv c v -> fits c v -> canon c v -> omit c v = false ->
   dec c (enc c v []) (wire c) (zero c) = Ok (v, len (enc c v [])).
 Proof. exact roundtrip_fresh. Qed.
 Print Assumptions C01_roundtrip_partial.
@@ -25,23 +29,36 @@ Theorem C01_struct_roundtrip_partial : forall nm n fs v,
   unmarshal (CStruct nm n fs) (marshal (CStruct nm n fs) [] v) (zero (CStruct nm n fs)) = Ok v.
 Proof.
   intros nm n fs v Hok Hw Hf Hc. unfold unmarshal, marshal. cbn [omit app].
-  pose proof (roundtrip_fresh (CStruct nm n fs) v Hok Hw Hf Hc eq_refl) as H. cbn [wire] in *. rewrite H. reflexivity.
+  pose proof (roundtrip_fresh (CStruct nm n fs) v Hok I Hw Hf Hc eq_refl) as H. cbn [wire] in *. rewrite H. reflexivity.
 Qed.
 Print Assumptions C01_struct_roundtrip_partial.
 
 (** the decoder inverts the encoder for every codec of the fragment, also when
     the encoding is followed by other data (self-delimiting codecs) *)
-Theorem C01_dec_enc_partial : forall c, rt_ok c -> RTc c.
+Theorem C01_dec_enc_partial : forall c, rt_ok c -> top_ok c -> RTc c.
 Proof. exact roundtrip. Qed.
 Print Assumptions C01_dec_enc_partial.
 
-(** non-vacuity: a nested value with pointers, times, slices of structs *)
+(** ... and every codec of the fragment, the repeated forms included, goes
+    through the decode loop of any struct that has it as a field: the loop
+    advances past the field's encoding and the slot receives the merge *)
+Theorem C01_field_roundtrip_partial : forall c, rt_ok c -> FRT c.
+Proof. intros c H. apply (proj2 (roundtrip_gen c H)). Qed.
+Print Assumptions C01_field_roundtrip_partial.
+
+(** non-vacuity: a nested value with pointers, times, slices of structs, a
+    map, and a slice and a map in the protobuf repeated form *)
 Example C01_ex :
   let inner := CStruct [] 2 [mkfld 0 1 [] (CInt 32); mkfld 1 2 [] CString] in
-  let c := CStruct [] 5 [mkfld 0 1 [] (CPtr inner); mkfld 1 2 [] (CSliceLen inner); mkfld 2 15 [] (CTime true);
-                         mkfld 3 16 [] (CSliceVar (CUint 8)); mkfld 4 2047 [] (CNull CF64)] in
+  let c := CStruct [] 8 [mkfld 0 1 [] (CPtr inner); mkfld 1 2 [] (CSliceLen inner); mkfld 2 15 [] (CTime true);
+                         mkfld 3 16 [] (CSliceVar (CUint 8)); mkfld 4 2047 [] (CNull CF64);
+                         mkfld 5 3 [] (CMap CString (CPtr inner)); mkfld 6 4 [] (CSliceProto inner);
+                         mkfld 7 5 [] (CMapProto (CInt 64) CString)] in
   let v := VStruct [VPtr (Some (VStruct [VInt 0; VStr []])); VSlice [VStruct [VInt (-7); VStr [104;105]]; VStruct [VInt 0; VStr []]];
-                    VTime (-5) 999999999; VSlice [VInt 255; VInt 0]; VNull true (VF64 0)] in
+                    VTime (-5) 999999999; VSlice [VInt 255; VInt 0]; VNull true (VF64 0);
+                    VMap (Some [(VStr [], VPtr None); (VStr [107], VPtr (Some (VStruct [VInt 1; VStr [118]])))]);
+                    VSlice [VStruct [VInt 3; VStr []]; VStruct [VInt 0; VStr [120]]];
+                    VMap (Some [(VInt 0, VStr []); (VInt (-1), VStr [121])])] in
   rt_ok c /\ unmarshal c (marshal c [] v) (zero c) = Ok v.
 Proof.
   cbv zeta. split.
@@ -56,6 +73,7 @@ Proof.
     | |- (_ <= _)%Z => lia
     | |- (_ < _)%Z => lia
     | |- wire _ = _ => reflexivity
+    | |- top_ok _ => exact I
     end.
   - vm_compute. reflexivity.
 Qed.
